@@ -175,12 +175,12 @@ func (r *idxRun) update(slot int, index, key string, ttl time.Duration) {
 	if o.keys[index] == key {
 		r.lastOp = "update-same-" + index
 	}
-	r.lc.count(r.a.name()+"_op_"+r.lastOp, 1)
 	sup, err := r.a.update(o.id, o.keys, nk, ttl)
 	if !sup {
 		r.lastOp = "none"
 		return
 	}
+	r.lc.count(r.a.name()+"_op_"+r.lastOp, 1)
 	r.logf("update(%s: %s -> %s)=%v", short(o.id), keysStr(o.keys), keysStr(nk), err)
 	if err != nil {
 		justified := r.a.refuses(index) && len(r.holders(index, key, o)) > 0
